@@ -72,10 +72,23 @@ type sim struct {
 	// history for violation reports
 	startLog []string
 	// C16 trace-invariant bookkeeping lives in the proxies of the incarnation.
-	everStarted map[string]int // uuid -> number of crunch-run processes ever created
+	everStarted map[string]int  // uuid -> number of crunch-run processes ever created
 	staleUnlock map[string]bool // uuids unlocked by fixStaleLocks of an incarnation while a process was alive
 	killOblig   map[string]*killObligation
-	brokenSeen  map[string]time.Time // instance -> time the pool saw (was delivered) a broken report / boot never
+
+	t0            time.Time
+	o             scenOpts
+	evOn          map[string]bool
+	origPrio      map[string]int64
+	rnd           *vsim.Rand
+	toArrive      int
+	nAdmin        int
+	restarts      int
+	restartAt     time.Time
+	nextEvent     time.Time
+	quiet         bool
+	nextQuietTick time.Time
+	holdSeen      bool
 }
 
 type killObligation struct {
